@@ -760,6 +760,7 @@ class Engine:
         for nm in ("_ZdlPv", "_ZdaPv", "free", "_ZdlPvm", "_ZdaPvm"):
             S[nm] = self.stub_delete
         S["strlen"] = self.stub_strlen
+        S["strncpy"] = self.stub_strncpy
         S["memcmp"] = self.stub_memcmp
         S["bcmp"] = self.stub_memcmp
 
@@ -850,6 +851,34 @@ class Engine:
         cur.status = "unwind"
         cur.info = "strlen bound %d exceeded" % maxn
         out.append((cur, None))
+        return out
+
+    def stub_strncpy(self, eng, st, args, ins):
+        """strncpy(dst, src, n): copies up to the first NUL of src, then pads dst with NULs up to n bytes. One path per
+        position of the first NUL (n must have a bounded number of feasible values)."""
+        dst, src = args[0], args[1]
+        out = []
+        for nv in self.concretize(st, args[2], "strncpy length"):
+            base = st.copy()
+            base.pc.append(simp(args[2] == BV(nv, 64)))
+            cur = base
+            for i in range(nv + 1):
+                if i == nv:
+                    out.append((cur, dst))
+                    break
+                b = self.load(cur, src + BV(i, 64), 1, kind="ld-bulk")
+                z = b == BV(0, 8)
+                if self.feasible(cur, z):
+                    s2 = cur.copy()
+                    s2.pc.append(simp(z))
+                    for j in range(i, nv):
+                        self.store(s2, dst + BV(j, 64), BV(0, 8), kind="st-bulk")
+                    out.append((s2, dst))
+                nz = z3.Not(z)
+                if not self.feasible(cur, nz):
+                    break
+                cur.pc.append(simp(nz))
+                self.store(cur, dst + BV(i, 64), b, kind="st-bulk")
         return out
 
     def stub_memcmp(self, eng, st, args, ins):
